@@ -48,6 +48,11 @@ abbrev St := Std.HashMap String Ctx
 
 def showMat (m : Array (Array Rat)) : String := ";".intercalate (m.toList.map showMV)
 
+def showExc (r : Except String MV) : String :=
+  match r with
+  | .ok x => showMV x
+  | .error e => s!"err {e}"
+
 def opMV (C : Ctx) (name : String) (args : List String) : Option String := do
   match name, args with
   | "gp", [a, b] => some (showMV (C.gp (← parseMV a) (← parseMV b)))
@@ -74,6 +79,15 @@ def opMV (C : Ctx) (name : String) (args : List String) : Option String := do
       | some x => some (showMV x) | none => some "singular"
   | "rinv", [a] => match C.rightInvExact (← parseMV a) with
       | some x => some (showMV x) | none => some "singular"
+  | "hitzer", [a] => some (showExc (C.hitzerInverse (← parseMV a)))
+  | "shirokov", [a] => some (showExc (C.shirokovInverse (← parseMV a)))
+  | "lainv", [a] => some (showExc (C.laInverse (← parseMV a)))
+  | "inv", [eps, a] => some (showExc (C.pickInv (← parseRat eps) (some true) (← parseMV a)))
+  | "normalinv", [eps, a] => some (showExc (C.pickInv (← parseRat eps) (some false) (← parseMV a)))
+  | "normalinv_nocheck", [eps, a] => some (showExc (C.pickInv (← parseRat eps) none (← parseMV a)))
+  | "powint", [eps, k, a] => some (showExc (C.powInt (← parseRat eps) (← parseMV a) (← k.toInt?)))
+  | "hitzernum", [a] => match C.hitzerNumerator (← parseMV a) with
+      | some x => some (showMV x) | none => some "err NotImplementedError"
   | "revsigns", [] => some (showInts C.revSigns.toList)
   | "gisigns", [] => some (showInts C.giSigns.toList)
   | "lcompsigns", [] => some (showInts C.leftCompSigns.toList)
